@@ -94,6 +94,10 @@ pub fn crash_histories(max_len: usize, listed: bool) -> Vec<Vec<Op>> {
             vec![t(0), t(6), Op::Compact, Op::CloseOpen],
             vec![t(0), t(2), Op::DropOpen, t(4)],
             vec![t(0), t(3), Op::Compact, t(3)],
+            // a node deletion that is still in the runs when the compaction (and the crash) comes
+            vec![t(0), t(1), t(5), Op::Compact],
+            vec![t(0), t(1), t(5), Op::Compact, t(3)],
+            vec![t(0), t(2), t(1), t(5), Op::Compact, Op::CloseOpen],
         ];
         for l in lists {
             let mut m = GraphModel::default();
